@@ -9,7 +9,7 @@ from hypothesis import strategies as st
 from hypothesis.stateful import initialize, rule
 
 from vlib import ref
-from vlib.harness import SubCheck, make_trace_machine, must, must_raise, require
+from vlib.harness import SubCheck, fail, make_trace_machine, must, must_raise, require
 
 PROPERTY_ID = "C14"
 RULE = (
@@ -240,7 +240,11 @@ def machine(on_end, expired):
 
         def _check_file(self, circuits, results):
             with open(self.file) as f:
-                data = json.load(f)["raw-data"]
+                text = f.read()
+            try:
+                data = json.loads(text)["raw-data"]
+            except (ValueError, KeyError, TypeError) as e:
+                fail(f"the tracker's file does not hold a JSON document with the records of the last call ({type(e).__name__}: {str(e)[:80]}); {len(text)} characters")
             require(len(data) == len(circuits), lambda: f"record file holds {len(data)} records for {len(circuits)} circuits")
             for rec, c, m in zip(data, circuits, results):
                 require(rec["counts"] == m.get_counts(), lambda: f"recorded counts {rec['counts']} != returned {m.get_counts()}")
